@@ -45,7 +45,7 @@ ANCHORS = [
     ("deepali.spatial.composite", "CompositeTransform.update"),
 ]
 MODELS = X.NONRIGID + ["Translation", "EulerRotation", "AffineTransform", "Sequential"]
-OPS = ["data_", "inplace", "grid_", "condition_", "reset_parameters", "update", "call", "disp", "inverse", "inv_read", "clear_buffers", "copy_edit", "fit"]
+OPS = ["data_", "inplace", "grid_", "condition_", "reset_parameters", "update", "call", "disp", "inverse", "inv_read", "clear_buffers", "copy_edit", "fit", "exp_option"]
 N_CASES = {"quick": 300, "thorough": 24000}
 BUDGET = {"quick": 600, "thorough": 5400}
 
@@ -60,7 +60,7 @@ def plan(tier, seed):
 
 
 def mandatory(tier):
-    return [f"model/{m}" for m in MODELS] + [f"op/{o}" for o in OPS] + [f"kind/{k}" for k in X.KINDS] + [f"grid_/at_new_samples/{k}" for k in ("resize", "other_domain", "same_shape")] + ["first_read_is_inverse", "image_transformer_reads_first", "pointset_transformer_reads_first", "condition_/via_transformer", "update/via_transformer"] + [f"svf_view/{v}" for v in VIEWS] + ["svf_view/grid_/flip_align_corners", "fit/parameters", "fit/finer", "linked_inverse/data_", "linked_inverse/inplace", "linked_inverse/kind/parameter", "linked_inverse/kind/buffer"]
+    return [f"model/{m}" for m in MODELS] + [f"op/{o}" for o in OPS] + [f"kind/{k}" for k in X.KINDS] + [f"grid_/at_new_samples/{k}" for k in ("resize", "other_domain", "same_shape")] + ["first_read_is_inverse", "image_transformer_reads_first", "pointset_transformer_reads_first", "condition_/via_transformer", "update/via_transformer", "inplace/params.data"] + [f"svf_view/{v}" for v in VIEWS] + ["svf_view/grid_/flip_align_corners", "fit/parameters", "fit/finer", "linked_inverse/data_", "linked_inverse/inplace", "linked_inverse/kind/parameter", "linked_inverse/kind/buffer"]
 
 
 class Subject:
@@ -88,6 +88,7 @@ class Subject:
         extra = dict(self.extra)
         if hasattr(self.t, "exp"):
             extra["steps"] = self.t.exp.steps
+            extra["scale"] = self.t.exp.scale
         f = cls(self.t.grid(), groups=v.shape[0], params=p, **extra)
         if invert:
             f = f.inverse()
@@ -295,6 +296,11 @@ def history(ctx, rng, info, subj, i):
                     with torch.no_grad():
                         subj.box.base.mul_(float(rng.uniform(0.5, 0.9)))
                     desc["target"] = "callable_state"
+                elif rng.integers(0, 3) == 0:
+                    # the same edit written through .data (no autograd version bump)
+                    t.params.data.mul_(float(rng.uniform(0.5, 0.9)))
+                    desc["target"] = "params.data"
+                    ctx.bucket("inplace/params.data")
                 else:
                     with torch.no_grad():
                         t.params.mul_(float(rng.uniform(0.5, 0.9)))
@@ -382,6 +388,18 @@ def history(ctx, rng, info, subj, i):
                 hist.append(desc)
                 compare_fresh(ctx, subj, x, hist, info, "inv_disp" if not t.linear else "inv_forward")
                 compare_fresh(ctx, subj, x, hist, info, "inv_forward")
+            elif op == "exp_option":
+                # the options of the exponential map are part of what a velocity-field transform holds
+                if not hasattr(t, "exp"):
+                    continue
+                if rng.integers(0, 2):
+                    t.exp.steps = int(rng.choice([k for k in (2, 3, 4, 6) if k != t.exp.steps]))
+                    desc["steps"] = t.exp.steps
+                else:
+                    t.exp.scale = float(t.exp.scale) * float(rng.choice([0.5, -1.0, 1.5]))
+                    desc["scale"] = t.exp.scale
+                hist.append(desc)
+                inv = None  # an inverse created earlier owns its (negated) copy of the exponential: it is no longer followed
             elif op == "clear_buffers":
                 t.clear_buffers()
                 hist.append(desc)
